@@ -5,7 +5,7 @@ import AslProofs.Csv
 namespace AslProofs.Csv
 open AslModel.Csv
 
-abbrev Bytes := List UInt8
+open AslModel.Ini (Bytes)
 
 
 /-- decimal value of a digit string -/
